@@ -114,11 +114,13 @@ class C07(C.PipelineCheck):
                 tag = 'root:%s/%s' % (site, rctx)
             else:
                 # an error type that is also reachable through a success position
-                shape = 'chain2'
+                # join: Alpha -> Gamma <- Beta; Beta is the error type of the first command and, in one
+                # variant, also the parameter of a second command (its only success-position use)
+                shape = 'join'
                 site = 'result-ok'
                 rctx = '-'
                 ectx = {}
-                split = set()
+                split = set([1]) if e.choose(2) == 1 else set()
                 err = 'Beta'
                 extra = 1 if e.choose(2) == 0 else None
                 tag = 'error-arm:%s' % ('also-param' if extra is not None else 'field-only')
